@@ -19,7 +19,8 @@ ASSUMPTIONS = [
 
 
 def strategy(tier):
-    return gen.cases(PROFILE)
+    # thorough tier: programs of up to 100 ops (quick: 40)
+    return gen.cases(dict(PROFILE, maxlen=100) if tier == "thorough" else PROFILE)
 
 
 def run_case(case, strict=False):  # pylint: disable=unused-argument,too-many-branches
@@ -30,6 +31,7 @@ def run_case(case, strict=False):  # pylint: disable=unused-argument,too-many-br
             after[it.idx] = core.state_snapshot(flt.state)
 
     tr = core.run(case, observer=observer)
+    direct = case.get("via") != "plugin"      # the plugin's @-command hook returns nothing; the handled flag is only visible on the direct path
     out = asserts.exceptions(tr)
     out += [f for f in asserts.c01(tr) if f["tag"] != "exception"]
     atm = core.AtModel(case.get("config", {}).get("at"))
@@ -57,14 +59,14 @@ def run_case(case, strict=False):  # pylint: disable=unused-argument,too-many-br
                 cl.add("at_while_streaming")
             if not acts:
                 cl.add("at_no_match")
-                if it.raw is not False and it.raw:
+                if direct and it.raw is not False and it.raw:
                     out.append(asserts.F("c14_unmatched_handled", it, "@-command matching no configured action reported as handled"))
                 if it.out:
                     out.append(asserts.F("c14_unmatched_sends", it, "@-command matching no configured action sent %r" % (it.out,)))
                 if after.get(it.idx) != it.state_before:
                     out.append(asserts.F("c14_unmatched_changes_state", it, "@-command matching no configured action changed the tracking state"))
             else:
-                if not it.raw:
+                if direct and not it.raw:
                     out.append(asserts.F("c14_matched_not_handled", it, "@-command matching a configured action reported as not handled"))
                 if it.enabled_before and not it.enabled_after:
                     phase = 1
